@@ -137,7 +137,7 @@ void Bus::on_bytes(const uint8_t *d, size_t n) {
 		for (auto &p : dec.packets) {
 			for (auto &m : p.msgs) {
 				tx.push_back({vf_now_us(), packets, m});
-				if (!silent) handle(m);
+				if (!silent) { handle(m); if (after_request) after_request(m); }
 			}
 			packets++;
 		}
